@@ -87,7 +87,7 @@ def nudge(f, steps):
 
 
 # ------------------------------------------------------------------ the oracle (property statement)
-PAT = re.compile(r"^(-?)(\d+)(?:\.(\d+))?\((\d+)\)(?:e([+-]\d+))?$")
+PAT = re.compile(r"^(-?)(\d+)(?:\.(\d+))?\((\d+)\)(?:e([+-]?\d+))?$")
 
 
 def read_back(s):
@@ -123,6 +123,13 @@ def round2(err):
     return m * u, u
 
 
+def show(fr):
+    try:
+        return repr(float(fr))
+    except OverflowError:
+        return f"{fr.numerator}/{fr.denominator}" if fr.denominator != 1 else str(fr.numerator)[:12] + "..."
+
+
 def oracle(x, err, out):
     """Failures of the property statement on one observation: list of (key, message)."""
     if out[0] != 0:
@@ -139,10 +146,10 @@ def oracle(x, err, out):
     bad = []
     if not (10 * u <= E <= 99 * u) or abs(E - fe) > u / 2 + SLACK * fe:
         bad.append(("error-digits-wrong",
-                    f"{out[1]!r} denotes error {float(E)!r} (unit {float(u)!r}) for err = {err!r}"))
+                    f"{out[1]!r} denotes error {show(E)} (unit {show(u)}) for err = {err!r}"))
     if abs(X - fx) > u / 2 + SLACK * abs(fx):
         bad.append(("value-digits-wrong",
-                    f"{out[1]!r} denotes value {float(X)!r} (unit {float(u)!r}) for x = {x!r}"))
+                    f"{out[1]!r} denotes value {show(X)} (unit {show(u)}) for x = {x!r}"))
     return bad
 
 
@@ -354,6 +361,30 @@ def run_stream(c, cases, tier):
     return len(bad), info
 
 
+def gen_vs_model_diff(cases):
+    """Inputs (from the case list) on which the regenerated gen_format and the model differ,
+    both evaluated inside Coq on the binary64 instance.  Needs Gen/GenFmt.v to compile."""
+    import fcntl
+    with open(core.LOCK, "w") as lk:
+        fcntl.flock(lk, fcntl.LOCK_EX)
+        core.ensure_makefile()
+        rc, log = core.sh("timeout 600 make -j4 Gen/GenFmt.vo", timeout=630, cwd=core.COQ)
+    if rc != 0:
+        return {"evaluated": 0, "note": "Gen/GenFmt.v does not compile: " + log[-300:]}
+    sel = cases[:160]
+    pairs = []
+    for st, x, err in sel:
+        a = f"(mkfloat {coq_float_args(x)}) (mkfloat {coq_float_args(err)})"
+        pairs.append((f"vbool (val_eqb (enc_fmt (gen_format ops_float {a})) (enc_fmt (format ops_float {a})))", True))
+    try:
+        bad, _ = core.run_cases(IMPORTS + " GenFmt", pairs, chunk=40, jobs=8)
+    except RuntimeError as e:
+        return {"evaluated": 0, "note": "evaluation failed: " + str(e)[-300:]}
+    return {"evaluated": len(sel), "differ": len(bad),
+            "inputs": [{"x": sel[i][1].hex(), "err": sel[i][2].hex(), "x_repr": repr(sel[i][1]),
+                        "err_repr": repr(sel[i][2])} for i in bad[:8]]}
+
+
 def build_float_instance():
     import fcntl
     with open(core.LOCK, "w") as lk:
@@ -388,12 +419,19 @@ def run(tier, seed):
         c.notes.append("the executable model could not be built: oracle only")
     hard = bool(c.broken)          # an obligation is broken: search the large streams
     cases = gen_cases(tier, c.rng, hard)
+    if rc == 0 and not b["ok"] and gen.get("GenFmt", {}).get("ok"):
+        c.cov["gen_vs_model_diff"] = gen_vs_model_diff(cases)
+    ran = False
     if rc == 0:
-        check_pow10(c)
-        nbad, info = run_stream(c, cases, tier)
-        c.cov["disagreements_checked"] = nbad
-        c.cov["case_files"] = info.get("files")
-    else:
+        try:
+            check_pow10(c)
+            nbad, info = run_stream(c, cases, tier)
+            c.cov["disagreements_checked"] = nbad
+            c.cov["case_files"] = info.get("files")
+            ran = True
+        except RuntimeError as e:
+            c.obligation_broken("evaluation of the model inside Coq failed", str(e)[-1200:])
+    if not ran and c.evaluations == 0:
         for st, x, err in cases:
             out = observe(x, err)
             c.case((x.hex(), err.hex()), nontrivial=x != 0)
@@ -429,6 +467,9 @@ def replay(path):
         d = bo.get("detail")
         if isinstance(d, dict) and "x" in d and "err" in d:
             items.append(d)
+        for d in bo.get("more_details", []) or []:
+            if isinstance(d, dict) and "x" in d and "err" in d:
+                items.append(d)
     if not items:
         print(json.dumps(r, indent=1)[:3000])
         return 1
